@@ -67,7 +67,7 @@ def cases(tier, seed, shard, nshards):
     n = tier_pick(tier, 32000, 1600000) // nshards
     for i in range(n):
         o = grammar.Opts(max_items=8, min_items=2, entry_keys=["a", "b"], string_keys=["a", "b", "c"],
-                         field_keys=["t", "u", "T"], kinds=("entry", "entry", "entry", "string", "string", "ecomment", "icomment"))
+                         field_keys=["t", "u", "T"], kinds=("entry", "entry", "entry", "string", "string", "ecomment", "icomment"), big=0.01)
         text, _ = grammar.document(r, o)
         yield {"k": "gen", "text": text}
     # identical duplicates
